@@ -7,6 +7,8 @@ import CSD.Model.SourceText
 import CSD.Lemmas.PFCMeta
 import CSD.Lemmas.FM17
 import CSD.Lemmas.RPFC9
+import CSD.Lemmas.RPDAC2
+import CSD.Lemmas.PFCLocate4
 
 namespace CSD.Props.C12
 open CSD CSD.PFC
@@ -116,5 +118,20 @@ theorem fmindex_answers_independent_of_parameters {S : List Str} {L₁ L₂ : Li
   refine ⟨?_, ?_⟩
   · rw [FM.locate_spec hv h₁ q hq, FM.locate_spec hv h₂ q hq]
   · rw [FM.locateSubstr_spec hv h₁ s₁ q hq hne, FM.locateSubstr_spec hv h₂ s₂ q hq hne]
+
+
+/-- **All four modelled order-preserving kinds agree on every ID**: for a valid dictionary `S` and any query over
+`0x02 .. 0xFE`, the plain front-coded dictionary (any bucket size), an RPFC object that stores `S` (any bucket
+size, any grammar), an RPDAC object that represents `S` (any grammar) and an FM-index dictionary of `S` (any
+suffix array, any sampling) return the same ID — the rank of the member, or 0. -/
+theorem ordered_kinds_agree {S : List Str} (hv : validDict S = true) (b : Nat)
+    {dR : RPFC.D} (hR : RPFC.Stores S dR) {dD : RPDAC.D} (hD : RPDAC.Represents dD S)
+    {L : List FM.Row} {dF : FM.Dict} (hF : FM.DictOK S L dF) (q : Str) (hq : q.all validByte = true) :
+    PFC.locate (PFC.build b S) q = some (Spec.locate S q) ∧ RPFC.locate dR q = some (Spec.locate S q) ∧
+    RPDAC.locate dD (RPDAC.bytesNat q) = some (Spec.locate S q) ∧ dF.locate q = some (Spec.locate S q) := by
+  obtain ⟨hne, hn, hs, _⟩ := PFC.validDict_facts hv
+  have hqn : PFC.nulFree q := FM.nulFree_of_all hq
+  exact ⟨PFC.locate_build b S q hne hn hqn hs, RPFC.locate_stores hR q hne hn hqn hs,
+    RPDAC.locate_represents dD S hD hn hs q hqn, FM.locate_spec hv hF q hq⟩
 
 end CSD.Props.C12
